@@ -55,7 +55,7 @@ PROPS = {
     },
     "C04": {
         "title": "Concurrent gets, sets and deletes are linearizable and never panic or hang",
-        "rules": [k2.p6_reader_pool, k6.n2_mmap_extent, k2.p3_publish_after_append, k2m.p4_merge_per_entry_order, k1.w2_index_mutators, k5.p17_read_under_index_guard],
+        "rules": [k2.p6_reader_pool, k6.n2_mmap_extent, k2.p18_handle_delegation, k2.p3_publish_after_append, k2m.p4_merge_per_entry_order, k1.w2_index_mutators, k5.p17_read_under_index_guard],
         "decides": "the pooled reader returns on every exit incl. unwind; index published only after flushed bytes (put and merge); index mutated only under the writer mutex or before sharing; the file read happens under the index shard guard",
         "not_decided": "linearizability of histories and real-time order (statements about schedules of run-time events)",
     },
@@ -97,7 +97,7 @@ PROPS = {
     },
     "C11": {
         "title": "Concurrent clients see one linearizable store",
-        "rules": [k2s.p11_command_application, k1.w2_index_mutators, k5.p17_read_under_index_guard],
+        "rules": [k2s.p11_command_application, k2.p18_handle_delegation, k1.w2_index_mutators, k5.p17_read_under_index_guard],
         "decides": "a reply is written only after the blocking storage call completed and its result was taken on the Ok edge; the store-level discipline the anchors name (single writer for index mutation, read under shard guard)",
         "not_decided": "linearizability itself",
     },
@@ -115,14 +115,14 @@ PROPS = {
     },
     "C14": {
         "title": "Data files are append-only and immutable, with ids that only grow",
-        "rules": [k1.w1_file_mutation_api, k1.w7_recovery_read_only, k2.p14_rollover_test, k2m.p5_merge_outputs_before_unlink],
+        "rules": [k1.w1_file_mutation_api, k1.w7_recovery_read_only, k2.p14_rollover_test, k2m.p5_merge_outputs_before_unlink, k2m.s7_s8_merge_sets],
         "exhaustive": True,
         "decides": "exhaustively over every call site: the only write-capable open is create_new+append; no truncate/rename/set_len/pwrite/MmapMut/seek-on-writer; unlink only in merge on store file names; reopen never opens an old file for writing; a rollover test follows every append; merge rotates the active id above its outputs",
         "not_decided": "'greater than every id the directory has ever contained' (arithmetic over histories)",
     },
     "C15": {
         "title": "The connection limit holds and slots are never leaked",
-        "rules": [k2s.p10_accept_loop, k1.w5_permit_ops],
+        "rules": [k2s.p10_accept_loop, k1.w5_permit_ops, k4.v3_read_frame_eof],
         "decides": "take-and-forget before accept once per iteration; handler built and moved into the task on every continuing path; the only release is +1 in Handler's Drop (runs on return, error, panic, cancellation); semaphore sized from max_connections; no Handler leak",
         "not_decided": "the run-time count of live connections",
     },
